@@ -53,6 +53,24 @@ def run_shard(ctx, prop):
                    sample=dict(text=text[:300], lang=case["lang"], db=case["db"], nodes=res["nodes"], passes_that_changed=sorted(res["changed"])))
 
     ctx.run_given(t)
+
+    # systematic: every lexeme of the table alone and in four small contexts (cell, list item, indented line, div)
+    from ..gens import soup as S
+
+    contexts = [("%s", "alone"), ("{|\n|%s\n|x\n|}", "cell"), ("* %s\n* y", "item"), (" %s z", "pre-line"), ("<div>%s</div>\n\npara", "div")]
+    i = 0
+    for cls, lx in S.ALL:
+        for fmt, cname in contexts:
+            i += 1
+            if i % ctx.nshards != ctx.shard:
+                continue
+            case = dict(parts=[fmt % lx], lang="en", db=None, classes=[cls], depth=0, kind="systematic")
+            ctx.announce(slim(case))
+            res = judge(ctx, case, prop)
+            for name in res["changed"]:
+                passes_changed[name] = passes_changed.get(name, 0) + 1
+            ctx.record(jdump([case["parts"], "en", None]), ["systematic", "ctx:" + cname] + (["nontrivial"] if res["changed"] else []), bool(res["changed"]))
+    ctx.exhaustive.append("each of the %d lexemes alone and inside a table cell / list item / indented line / div" % len(S.ALL))
     for name, n in passes_changed.items():
         ctx.labels["changed-by:" + name] = n
 
